@@ -2,6 +2,7 @@ import TantivyModel.Proofs.BoolCompile
 import TantivyModel.Proofs.QueryLists
 import TantivyModel.Proofs.PhraseSlop
 import TantivyModel.Proofs.OrderEnc
+import TantivyModel.Proofs.LeafTree
 /-!
 # C03 — Queries match exactly the documents their logical meaning prescribes
 
@@ -19,41 +20,45 @@ open TantivyModel TantivyModel.QuerySem TantivyModel.BoolCompile
 
 /-- a leaf scorer produces exactly the documents of the segment that satisfy the leaf
 (hypothesis `leafOk`: not a phrase of ≥ 3 terms with slop ≥ 1 — DESIGN S6) -/
-def LeafSound (cls : LeafCls) : Prop :=
-  ∀ (scoring b : Bool) (l : Leaf) (docs : List ADoc) (d : Nat) (h : d < docs.length),
+def LeafSoundOn (cls : LeafCls) (docs : List ADoc) : Prop :=
+  ∀ (scoring b : Bool) (l : Leaf) (d : Nat) (h : d < docs.length),
     leafOk l = true → mem docs.length (cls scoring b l docs) d = semLeaf l docs[d]
+
+/-- sound on every segment -/
+def LeafSound (cls : LeafCls) : Prop := ∀ docs, LeafSoundOn cls docs
+
 
 /-! ## compile is sound (partial: side conditions `okQ`) -/
 
 mutual
-theorem compile_mem (cls : LeafCls) (hcls : LeafSound cls) (scoring : Bool) (docs : List ADoc)
+theorem compile_mem (cls : LeafCls) (scoring : Bool) (docs : List ADoc) (hcls : LeafSoundOn cls docs)
     (d : Nat) (hd : d < docs.length) :
     (q : Query) → (b : Bool) → okQ q = true →
       mem docs.length (compile cls scoring docs b q) d = sem q docs[d]
   | .leaf l, b, h => by
     simp only [compile, sem]
-    exact hcls scoring b l docs d hd (by simpa [okQ] using h)
+    exact hcls scoring b l d hd (by simpa [okQ] using h)
   | .boost q, b, h => by
     simp only [compile, sem]
-    exact compile_mem cls hcls scoring docs d hd q _ (by simpa [okQ] using h)
+    exact compile_mem cls scoring docs hcls d hd q _ (by simpa [okQ] using h)
   | .constScore q, b, h => by
-    have ih := compile_mem cls hcls scoring docs d hd q b (by simpa [okQ] using h)
+    have ih := compile_mem cls scoring docs hcls d hd q b (by simpa [okQ] using h)
     simp only [compile, sem]
     split
     · simpa [mem] using ih
     · exact ih
   | .disMax qs, b, h => by
-    have ih := compileAny_vals cls hcls scoring docs d hd qs b (by simpa [okQ] using h)
+    have ih := compileAny_vals cls scoring docs hcls d hd qs b (by simpa [okQ] using h)
     simp only [compile, sem]
     rw [mem_boolScorer scoring docs.length d hd _ _ (singleOkT_compileAny cls scoring docs b qs), ih,
       boolSem_should_only, semAny_eq_any]
   | .bool cs msm, b, h => by
     have h' : singleOk cs msm = true ∧ okCs cs = true := by simpa [okQ] using h
-    have ih := compileClauses_vals cls hcls scoring docs d hd cs b h'.2
+    have ih := compileClauses_vals cls scoring docs hcls d hd cs b h'.2
     simp only [compile, sem]
     rw [mem_boolScorer scoring docs.length d hd _ _
       (by rw [singleOkT_compileClauses]; exact h'.1), ih]
-theorem compileAny_vals (cls : LeafCls) (hcls : LeafSound cls) (scoring : Bool) (docs : List ADoc)
+theorem compileAny_vals (cls : LeafCls) (scoring : Bool) (docs : List ADoc) (hcls : LeafSoundOn cls docs)
     (d : Nat) (hd : d < docs.length) :
     (qs : List Query) → (b : Bool) → okQs qs = true →
       valsOf docs.length d (compileAny cls scoring docs b qs)
@@ -61,19 +66,19 @@ theorem compileAny_vals (cls : LeafCls) (hcls : LeafSound cls) (scoring : Bool) 
   | [], _, _ => by simp [compileAny, valsOf]
   | q :: qs, b, h => by
     have h' : okQ q = true ∧ okQs qs = true := by simpa [okQs] using h
-    have i1 := compile_mem cls hcls scoring docs d hd q b h'.1
-    have i2 := compileAny_vals cls hcls scoring docs d hd qs b h'.2
+    have i1 := compile_mem cls scoring docs hcls d hd q b h'.1
+    have i2 := compileAny_vals cls scoring docs hcls d hd qs b h'.2
     simp only [compileAny, valsOf, List.map_cons] at i2 ⊢
     rw [i1, i2]
-theorem compileClauses_vals (cls : LeafCls) (hcls : LeafSound cls) (scoring : Bool) (docs : List ADoc)
+theorem compileClauses_vals (cls : LeafCls) (scoring : Bool) (docs : List ADoc) (hcls : LeafSoundOn cls docs)
     (d : Nat) (hd : d < docs.length) :
     (cs : List (Occur × Query)) → (b : Bool) → okCs cs = true →
       valsOf docs.length d (compileClauses cls scoring docs b cs) = semClauses cs docs[d]
   | [], _, _ => by simp [compileClauses, valsOf, semClauses]
   | (o, q) :: cs, b, h => by
     have h' : okQ q = true ∧ okCs cs = true := by simpa [okCs] using h
-    have i1 := compile_mem cls hcls scoring docs d hd q b h'.1
-    have i2 := compileClauses_vals cls hcls scoring docs d hd cs b h'.2
+    have i1 := compile_mem cls scoring docs hcls d hd q b h'.1
+    have i2 := compileClauses_vals cls scoring docs hcls d hd cs b h'.2
     simp only [compileClauses, valsOf, List.map_cons, semClauses] at i2 ⊢
     rw [i1, i2]
 end
@@ -86,8 +91,8 @@ the proved part carries the side condition `okQ q`:
   * every boolean node with exactly one clause has `msm ≤ 1` (SHOULD) / `msm = 0` (MUST) — F4;
   * no phrase of ≥ 3 terms with slop ≥ 1 — S6.
 -/
-theorem C03_compile_sound_partial (cls : LeafCls) (hcls : LeafSound cls) (scoring b : Bool)
-    (docs : List ADoc) (q : Query) (hok : okQ q = true) :
+theorem C03_compile_sound_partial (cls : LeafCls) (scoring b : Bool)
+    (docs : List ADoc) (hcls : LeafSoundOn cls docs) (q : Query) (hok : okQ q = true) :
     (interp docs.length (compile cls scoring docs b q)).filterMap (fun d => docs[d]?.map (·.id))
       = (docs.filter (sem q)).map (·.id) := by
   rw [← range_filterMap_getElem docs (sem q) (·.id)]
@@ -96,48 +101,48 @@ theorem C03_compile_sound_partial (cls : LeafCls) (hcls : LeafSound cls) (scorin
   apply filterMap_congr'
   intro d hdm
   have hd : d < docs.length := List.mem_range.mp hdm
-  rw [compile_mem cls hcls scoring docs d hd q b hok]
+  rw [compile_mem cls scoring docs hcls d hd q b hok]
   simp [List.getElem?_eq_getElem hd]
 
 /-- the scorer tree iterates exactly over the matching segment doc ids, in increasing order -/
-theorem C03_compile_sound_docids (cls : LeafCls) (hcls : LeafSound cls) (scoring b : Bool)
-    (docs : List ADoc) (q : Query) (hok : okQ q = true) :
+theorem C03_compile_sound_docids (cls : LeafCls) (scoring b : Bool)
+    (docs : List ADoc) (hcls : LeafSoundOn cls docs) (q : Query) (hok : okQ q = true) :
     interp docs.length (compile cls scoring docs b q)
       = (List.range docs.length).filter (fun d => match docs[d]? with | some x => sem q x | none => false) := by
   unfold interp
   apply List.filter_congr
   intro d hdm
   have hd : d < docs.length := List.mem_range.mp hdm
-  rw [compile_mem cls hcls scoring docs d hd q b hok]
+  rw [compile_mem cls scoring docs hcls d hd q b hok]
   simp [List.getElem?_eq_getElem hd]
 
 /-- the collector paths (`Weight::for_each*`), which bypass the single-clause shortcut at the
 outermost boolean weight, produce the same set -/
-theorem C03_compileTop_sound_partial (cls : LeafCls) (hcls : LeafSound cls) (scoring : Bool)
-    (docs : List ADoc) (d : Nat) (hd : d < docs.length) :
+theorem C03_compileTop_sound_partial (cls : LeafCls) (scoring : Bool)
+    (docs : List ADoc) (hcls : LeafSoundOn cls docs) (d : Nat) (hd : d < docs.length) :
     (q : Query) → okQ q = true → mem docs.length (compileTop cls scoring docs q) d = sem q docs[d]
   | .leaf l, hok => by
     simp only [compileTop]
-    exact compile_mem cls hcls scoring docs d hd _ false hok
+    exact compile_mem cls scoring docs hcls d hd _ false hok
   | .boost q, hok => by
     have hq : okQ q = true := by simpa [okQ] using hok
     simp only [compileTop, sem]
     split
-    · exact compile_mem cls hcls scoring docs d hd q true hq
-    · exact C03_compileTop_sound_partial cls hcls scoring docs d hd q hq
+    · exact compile_mem cls scoring docs hcls d hd q true hq
+    · exact C03_compileTop_sound_partial cls scoring docs hcls d hd q hq
   | .constScore q, hok => by
     have hq : okQ q = true := by simpa [okQ] using hok
     simp only [compileTop, sem]
     split
-    · simpa [mem] using compile_mem cls hcls scoring docs d hd q false hq
-    · exact C03_compileTop_sound_partial cls hcls scoring docs d hd q hq
+    · simpa [mem] using compile_mem cls scoring docs hcls d hd q false hq
+    · exact C03_compileTop_sound_partial cls scoring docs hcls d hd q hq
   | .disMax qs, hok => by
-    have ih := compileAny_vals cls hcls scoring docs d hd qs false (by simpa [okQ] using hok)
+    have ih := compileAny_vals cls scoring docs hcls d hd qs false (by simpa [okQ] using hok)
     simp only [compileTop, sem]
     rw [mem_complex_eq_boolSem scoring docs.length d hd, ih, boolSem_should_only, semAny_eq_any]
   | .bool cs msm, hok => by
     have h' : singleOk cs msm = true ∧ okCs cs = true := by simpa [okQ] using hok
-    have ih := compileClauses_vals cls hcls scoring docs d hd cs false h'.2
+    have ih := compileClauses_vals cls scoring docs hcls d hd cs false h'.2
     simp only [compileTop, sem]
     rw [mem_complex_eq_boolSem scoring docs.length d hd, ih]
 
@@ -172,7 +177,7 @@ theorem C03_msm_single_must_clause_counterexample :
 /-- Count, id collection and ranking with a limit ≥ number of matches, scoring on or off, through
 `Weight::scorer` or `Weight::for_each*`: the same documents — the live documents of the segment
 that satisfy the query; deleted documents are invisible to all of them. -/
-theorem C03_collectors_agree (cls : LeafCls) (hcls : LeafSound cls) (s : Seg) (q : Query)
+theorem C03_collectors_agree (cls : LeafCls) (s : Seg) (hcls : LeafSoundOn cls s.docs) (q : Query)
     (hok : okQ q = true) (scoring : Bool) :
     collectDocs cls scoring s q
         = (List.range s.docs.length).filter
@@ -181,7 +186,7 @@ theorem C03_collectors_agree (cls : LeafCls) (hcls : LeafSound cls) (s : Seg) (q
       ∧ collectCount cls scoring s q = (collectIds cls scoring s q).length := by
   refine ⟨?_, ?_, ?_⟩
   · unfold collectDocs
-    rw [C03_compile_sound_docids cls hcls scoring false s.docs q hok, List.filter_filter]
+    rw [C03_compile_sound_docids cls scoring false s.docs hcls q hok, List.filter_filter]
     apply List.filter_congr
     intro d _
     rw [Bool.and_comm]
@@ -190,8 +195,8 @@ theorem C03_collectors_agree (cls : LeafCls) (hcls : LeafSound cls) (s : Seg) (q
     apply List.filter_congr
     intro d hdm
     have hd : d < s.docs.length := List.mem_range.mp hdm
-    rw [C03_compileTop_sound_partial cls hcls scoring s.docs d hd q hok,
-      compile_mem cls hcls scoring s.docs d hd q false hok]
+    rw [C03_compileTop_sound_partial cls scoring s.docs hcls d hd q hok,
+      compile_mem cls scoring s.docs hcls d hd q false hok]
   · unfold collectCount collectIds collectDocs interp
     symm
     apply length_filterMap_of_isSome
@@ -202,9 +207,9 @@ theorem C03_collectors_agree (cls : LeafCls) (hcls : LeafSound cls) (s : Seg) (q
     simp [List.getElem?_eq_getElem hd]
 
 /-- scoring enabled and disabled give the same documents -/
-theorem C03_scoring_irrelevant (cls : LeafCls) (hcls : LeafSound cls) (s : Seg) (q : Query)
+theorem C03_scoring_irrelevant (cls : LeafCls) (s : Seg) (hcls : LeafSoundOn cls s.docs) (q : Query)
     (hok : okQ q = true) : collectDocs cls true s q = collectDocs cls false s q := by
-  rw [(C03_collectors_agree cls hcls s q hok true).1, (C03_collectors_agree cls hcls s q hok false).1]
+  rw [(C03_collectors_agree cls s hcls q hok true).1, (C03_collectors_agree cls s hcls q hok false).1]
 
 /-- `Weight::count`: with no deleted document the count shortcut (`count_including_deleted`) is
 the number of collected documents. (With deletes the code filters by the alive bitset; the
@@ -230,33 +235,34 @@ theorem C03_count_shortcut_sound (cls : LeafCls) (s : Seg) (q : Query)
 /-! ## whole searcher = specification; independence of segmentation and of other deletes -/
 
 /-- per segment: collected ids = ids of the live documents satisfying the query -/
-theorem C03_segment_ids (cls : LeafCls) (hcls : LeafSound cls) (scoring : Bool) (s : Seg)
+theorem C03_segment_ids (cls : LeafCls) (scoring : Bool) (s : Seg) (hcls : LeafSoundOn cls s.docs)
     (hwf : s.wf) (q : Query) (hok : okQ q = true) :
     collectIds cls scoring s q = (s.live.filter (sem q)).map (·.id) := by
   unfold collectIds
-  rw [(C03_collectors_agree cls hcls s q hok scoring).1]
+  rw [(C03_collectors_agree cls s hcls q hok scoring).1]
   exact range_filterMap_live s.docs s.alive hwf (sem q)
 
 /-- the result of a search over any corpus is the specification's answer -/
-theorem C03_search_eq_answer (cls : LeafCls) (hcls : LeafSound cls) (scoring : Bool) (c : Corpus)
-    (hwf : ∀ s ∈ c, s.wf) (q : Query) (hok : okQ q = true) :
+theorem C03_search_eq_answer (cls : LeafCls) (scoring : Bool) (c : Corpus)
+    (hcls : ∀ s ∈ c, LeafSoundOn cls s.docs) (hwf : ∀ s ∈ c, s.wf) (q : Query) (hok : okQ q = true) :
     searchIds cls scoring c q = answer q c := by
   unfold searchIds answer Corpus.live
   induction c with
   | nil => simp
   | cons s c ih =>
     simp only [List.flatMap_cons, List.filter_append, List.map_append]
-    rw [C03_segment_ids cls hcls scoring s (hwf s (by simp)) q hok,
-      ih (fun s' hs' => hwf s' (by simp [hs']))]
+    rw [C03_segment_ids cls scoring s (hcls s (by simp)) (hwf s (by simp)) q hok,
+      ih (fun s' hs' => hcls s' (by simp [hs'])) (fun s' hs' => hwf s' (by simp [hs']))]
 
 /-- the answer depends only on the live documents: any two partitions into segments (any order,
 merged or not, whatever deleted documents they still carry) of the same live documents give the
 same result up to order; deleting *other* documents removes exactly those from the answer. -/
-theorem C03_segmentation_invariant (cls : LeafCls) (hcls : LeafSound cls) (s1 s2 : Bool)
-    (c1 c2 : Corpus) (h1 : ∀ s ∈ c1, s.wf) (h2 : ∀ s ∈ c2, s.wf) (q : Query) (hok : okQ q = true)
+theorem C03_segmentation_invariant (cls : LeafCls) (s1 s2 : Bool)
+    (c1 c2 : Corpus) (hc1 : ∀ s ∈ c1, LeafSoundOn cls s.docs) (hc2 : ∀ s ∈ c2, LeafSoundOn cls s.docs)
+    (h1 : ∀ s ∈ c1, s.wf) (h2 : ∀ s ∈ c2, s.wf) (q : Query) (hok : okQ q = true)
     (hperm : c1.live.Perm c2.live) :
     (searchIds cls s1 c1 q).Perm (searchIds cls s2 c2 q) := by
-  rw [C03_search_eq_answer cls hcls s1 c1 h1 q hok, C03_search_eq_answer cls hcls s2 c2 h2 q hok]
+  rw [C03_search_eq_answer cls s1 c1 hc1 h1 q hok, C03_search_eq_answer cls s2 c2 hc2 h2 q hok]
   unfold answer
   exact (hperm.filter _).map _
 
@@ -269,6 +275,21 @@ theorem C03_delete_others (q : Query) (c c' : Corpus) (keep : ADoc → Bool)
   apply List.filter_congr
   intro x _
   rw [Bool.and_comm]
+
+/-! ## the classifier the driver executes -/
+
+/-- `leafTree` (term: `EmptyScorer` when absent, `AllScorer` when scoring is off and every document
+has the term; exists: all/empty/other; phrase: the mirrored position algorithms in cost order; …)
+is sound on every segment whose position lists are increasing (`DocsWf`) -/
+theorem C03_leafTree_sound (docs : List ADoc) (hw : DocsWf docs) : LeafSoundOn leafTree docs :=
+  leafTree_soundOn docs hw
+
+/-- hypothesis-free instance for the executable model: what `tvmodel` computes for `search` is
+what it computes for `answer`, for every corpus and every query satisfying the side conditions -/
+theorem C03_search_eq_answer_concrete (scoring : Bool) (c : Corpus)
+    (hwf : ∀ s ∈ c, s.wf) (hdw : ∀ s ∈ c, DocsWf s.docs) (q : Query) (hok : okQ q = true) :
+    searchIds leafTree scoring c q = answer q c :=
+  C03_search_eq_answer leafTree scoring c (fun s hs => leafTree_soundOn s.docs (hdw s hs)) hwf q hok
 
 /-! ## S6: phrases of ≥ 3 terms with slop ≥ 1 -/
 
@@ -347,11 +368,16 @@ theorem C03_range_paths_agree (w : Nat) (lo hi : BndN) (v : Nat) (hv : v < 256 ^
 
 /-- the classifier that never specialises is sound on every leaf -/
 theorem plainCls_sound : LeafSound (fun _ _ l docs => .wrapped (.leaf (docsWhere docs (semLeaf l)) false)) := by
-  intro scoring b l docs d hd _
+  intro docs scoring b l d hd _
   simp only [mem]
   exact contains_docsWhere docs (semLeaf l) d hd
 
 example : ∃ cls, LeafSound cls := ⟨_, plainCls_sound⟩
+example : DocsWf [⟨1, [⟨1, [97], [0, 3, 7]⟩, ⟨1, [98], [1]⟩], []⟩] := by
+  intro doc hdoc p hp
+  simp at hdoc; subst hdoc
+  simp at hp
+  rcases hp with rfl | rfl <;> decide
 -- a query of depth 3 that satisfies the side conditions, on a two-segment corpus with a delete
 example :
     let q : Query := .bool [(.must, .leaf (.term 1 [97])),
